@@ -7,7 +7,7 @@ import msuite
 from common import rng_for
 
 PID = 'C12'
-TAGS = ['breq', 'benter', 'bbody', 'bexit', 'levels', 'reschange', 'caught']
+TAGS = ['breq', 'benter', 'bbody', 'bexit', 'levels', 'reschange', 'resrej', 'caught']
 RES = [[False, [6, 4]], [True, [5]]]
 RULE = ('(a) families: 2-5 borrowers/claimants of a 2-resource `Resources` supply and a `Capacities` supply inside an '
         '(until-)scope, arbitrary amounts/hold times, nested borrowing from a borrowed share, concurrent increase/decrease, '
@@ -54,6 +54,13 @@ F4_PROBE = ['scenario', ['debug', 1], ['start', 0], ['flags', 1], ['locks', 0], 
                        ['sleep', 1], ['levels', 0]]]]
 
 
+#: known finding F17: a borrowed share is left while another activity still borrows from it
+F17_PROBE = ['scenario', ['debug', 1], ['start', 0], ['flags', 1], ['locks', 0], ['resources', ['res', 0, 5]],
+             ['roots', ['prog', ['claim', 0, [4], 1, ['sleep', 1]]],
+                       ['prog', ['sleep', F(1, 2)], ['borrow', 1, [3], 2, ['sleep', 2]]],
+                       ['prog', ['sleep', 2], ['levels', 1], ['sleep', 1], ['levels', 0]]]]
+
+
 def nontrivial(impl):
     return sum(1 for e in impl['events'] if ':benter:' in e) >= 2
 
@@ -77,6 +84,38 @@ def f4_pattern(impl):
     return False
 
 
+def share_used_outside(sc):
+    """does some block borrow from a borrowed share (a name bound by a borrow/claim block) from outside the body of the block
+    that owns the share - another activity, or a task spawned inside it?  Such a borrower can outlive the share."""
+    bound = set()
+
+    def binders(x):
+        if isinstance(x, list):
+            if x and x[0] in ('borrow', 'claim'):
+                bound.add(x[3])
+            for e in x:
+                binders(e)
+    binders(sc)
+    found = []
+
+    def walk(x, inside):
+        if not isinstance(x, list) or not x:
+            return
+        if x[0] in ('borrow', 'claim'):
+            if x[1] in bound and x[1] not in inside:
+                found.append(x)
+            for e in x[4:]:
+                walk(e, inside | {x[3]})
+        elif x[0] == 'spawn':
+            for e in x:
+                walk(e, frozenset())
+        else:
+            for e in x:
+                walk(e, inside)
+    walk(sc, frozenset())
+    return bool(found)
+
+
 def declared(sc):
     for f in sc[1:]:
         if f[0] == 'resources':
@@ -88,14 +127,18 @@ def run(tier, seed, drv, scenarios=None):
     st = msuite.Suite(PID, drv, 'C12', TAGS)
     st.res.rule = RULE
 
-    def refine(msg, impl, model):
+    def refine(msg, impl, model, sc):
         if 'every block was left' in msg:
             return {'clause': 'conservation', 'interrupted_inside_acquire_or_release': f4_pattern(impl),
-                    'final_levels_as_modelled': model is not None and impl['obs'] == model['obs']}
+                    'final_levels_as_modelled': model is not None and impl['obs'] == model['obs'],
+                    'share_used_outside_its_block': share_used_outside(sc)}
+        if 'level below zero' in msg:
+            return {'clause': 'resource level below zero at', 'share_used_outside_its_block': share_used_outside(sc),
+                    'levels_as_modelled': model is not None and impl['obs'] == model['obs']}
         return None
 
     def one(sc, probe=None):
-        st.check(sc, nontrivial=nontrivial, probe=probe, refine=refine,
+        st.check(sc, nontrivial=nontrivial, probe=probe, refine=lambda msg, impl, model, sc=sc: refine(msg, impl, model, sc),
                  judge_extra=[('C12cons', '%d %s' % (i, ' '.join(map(str, init)))) for i, init in declared(sc)])
     if scenarios is not None:
         for sc in scenarios:
@@ -104,6 +147,7 @@ def run(tier, seed, drv, scenarios=None):
     for sc in msuite.corpus(PID):
         one(msuite.fix_fractions(sc))
     one(F4_PROBE, probe='F4')
+    one(F17_PROBE, probe='F17')
     n = 150 if tier == 'quick' else 5000
     for i in range(n):
         rng = rng_for(seed, PID, i)
